@@ -233,6 +233,9 @@ func c14RunFramesInner(e *vsched.Exec, c *c14FrameCase, st *c14FrameStats) strin
 		if err != nil || n != L {
 			return fmt.Sprintf("WriteTo(%d bytes) = %d, %v", L, n, err)
 		}
+		if !bytes.Equal(pkts[m], c14Content(L, m, true)) {
+			return "WriteTo modified the caller's packet"
+		}
 		sent := d.tap.Sent[d.base:]
 		if len(sent) != cc {
 			return fmt.Sprintf("sender emitted %d datagrams for a chunk-count draw of %d", len(sent), cc)
